@@ -204,7 +204,12 @@ CONFIG = {
     "LLCSupervisory": cfg("tins/llc.h", "Tins::LLC", [("header_", "llchdr"), ("control_field.super", "super_control_field")],
                           fixup="o.type(Tins::LLC::SUPERVISORY);", fix=[(2, 0xfc, 0x01)], **LLCF),
     "LLCUnnumbered": cfg("tins/llc.h", "Tins::LLC", [("header_", "llchdr"), ("control_field.unnumbered", "un_control_field")],
-                         fixup="o.type(Tins::LLC::UNNUMBERED);", fix=[(2, 0xfc, 0x03)], **LLCF),
+                         fixup="o.type(Tins::LLC::UNNUMBERED);", fix=[(2, 0xfc, 0x03)],
+                         exprs={"modifier_function_hi": ("to_val(uint8_t(o.modifier_function() >> 3))",
+                                                         "o.modifier_function(static_cast<Tins::LLC::ModifierFunctions>((bits(v, 2) << 3) | (o.modifier_function() & 7)))"),
+                                "modifier_function_lo": ("to_val(uint8_t(o.modifier_function() & 7))",
+                                                         "o.modifier_function(static_cast<Tins::LLC::ModifierFunctions>((o.modifier_function() & 0x18) | bits(v, 3)))")},
+                         arg={"modifier_function_hi": "int 2", "modifier_function_lo": "int 3"}, **LLCF),
     "Loopback": cfg("tins/loopback.h", "Tins::Loopback", [("family_", "@int")], files=["src/loopback.cpp", "include/tins/loopback.h"]),
     "RadioTap": cfg("tins/radiotap.h", "Tins::RadioTap", [("header_", "radiotap_header")], files=["src/radiotap.cpp", "include/tins/radiotap.h"]),
     # PPI is parse-only (write_serialization throws): the image itself stands for the serialisation
@@ -647,6 +652,11 @@ template <> struct Conv<Tins::STP::bpdu_id_type> {
     }
     static std::string info() { return "int 64"; }
 };
+// a value of an n-bit domain (pseudo-rows that drive one part of a split field through the public pair)
+static inline unsigned bits(const Val& v, unsigned n) {
+    if (v.is_bytes || (v.n >> n) != 0) throw DomainError();
+    return unsigned(v.n);
+}
 // setters that take `const uint8_t*` to an array of known size
 static inline const uint8_t* byte_ptr(const Val& v, size_t n) {
     if (!v.is_bytes || v.b.size() != n) throw DomainError();
@@ -1084,6 +1094,7 @@ SCALAR_T = (r"(?:const\s+)?(?:u?int(?:8|16|32|64)_t|bool|small_uint<\s*\d+\s*>|\
 OPTION_CALLS = re.compile(r"add_option|add_tagged_option|internal_add_option|add_tag\b|add_pdu_option|search_option|options_|"
                           r"Utils::|writer\.|option\(")
 NOT_HEADER = {("RTP", "padding_size"): "trailer length, not a header field",
+              ("Dot1Q", "append_padding"): "serialisation option (pad the frame to 60 bytes), not a header field",
               ("LLC", "type"): "selects the control field format (changes the shape of the header); the getter reads a cached member"}
 
 
